@@ -112,7 +112,7 @@ def case_pipelines(R, D, sub):
             "hadamard+evaluate": (lambda U, F, X: U.hadamard(F, update_full=True).evaluate_ln(X), (U, F, X)),
             "hadamard+log_integral": (lambda U, F: U.hadamard(F, update_full=True).log_integral(), (U, F)),
             "multiply+integrate_x": (lambda U, G: U.multiply(G).integrate("x"), (U, G)),
-            "multiply+quartic": (lambda U, G, X: U.multiply(G).integrate("(Ax+a)'(Bx+b)(Cx+c)'(Dx+d)", A_mat=X[:2], C_mat=X[2:]), (U, G, X)),
+            "multiply+quartic": (lambda U, G, X: U.multiply(G).integrate("(Ax+a)'(Bx+b)(Cx+c)'(Dx+d)", A_mat=X[:2], B_mat=X[:2], C_mat=X[2:], D_mat=X[2:]), (U, G, X)),
             "joint+evaluate": (lambda C, P, X: C.affine_joint_transformation(P).get_marginal(jnp.arange(D)).evaluate_ln(X), (C, P, X)),
             "marginal+entropy": (lambda C, P: C.affine_marginal_transformation(P).entropy(), (C, P)),
             "posterior": (lambda C, P, X: C.affine_conditional_transformation(P).condition_on_x(X[:1, :C.Dy]).mu, (C, P, X)),
